@@ -15,7 +15,7 @@ import ast
 from typing import Callable, Dict, FrozenSet, List, Optional, Set, Tuple
 
 from fdlstatic import cfg as cfg_lib
-from fdlstatic.model import FuncInfo, unparse, walk_function
+from fdlstatic.model import FuncInfo, norm_text, unparse, walk_function
 
 S, I = 'str', 'int'
 SI = frozenset({S, I})
@@ -272,13 +272,13 @@ class KeyKind:
         'sorted', 'min', 'max') and e.args and not any(
             k.arg == 'key' for k in e.keywords) and self._src(
                 e.args[0]) == 'keys':
-      desc = f'{e.func.id}() over argument keys in `{unparse(e)[:70]}`'
+      desc = f'{e.func.id}() over argument keys in `{norm_text(self.f, e)}`'
       if not any(d == desc for _, d in self.bad):
         self.bad.append((e, desc))
     for operand, what in self._sink_operand(e):
       if isinstance(operand, ast.Name) and operand.id in st:
         tags = st[operand.id]
-        desc = f'{what} with `{operand.id}` in `{unparse(e)[:70]}`'
+        desc = f'{what} in `{norm_text(self.f, e)}`'
         if I in tags:
           if not any(d == desc for _, d in self.bad):
             self.bad.append((e, desc))
